@@ -117,7 +117,11 @@ func checkC20(c *Ctx) {
 					c.Fail("C20.skip", key, c.Prog.FuncPos(sk), "decision not computable: "+res.Why)
 					continue
 				}
-				skipped := matches(ret.Results[0], BoolPat(true))
+				skipped, known := res.RetBool[0]
+				if !known {
+					c.Fail("C20.skip", key, c.Prog.Pos(ret.Pos()), "the returned decision cannot be evaluated")
+					continue
+				}
 				want := !(isPB && !empty && !noAddr && exec)
 				c.Oblige("C20.skip", key, c.Prog.Pos(ret.Pos()), skipped == want, fmt.Sprintf("skipped=%v, expected %v", skipped, want))
 			}
